@@ -128,18 +128,22 @@ def run_case(case):
     RE._deferred_pause_requested = False
     canon = Canon()
     out = []
-    try:
+
+    async def go():
         for op in case["ops"]:
             del _collected[:]
             l0 = len(ledger)
             res = "ok"
             try:
-                _do(RE, b, devs, op, Msg)
+                await _do(RE, b, devs, op, Msg)
             except Exception as e:      # noqa: BLE001 - every error kind is part of the observation
                 res = errkind(e)
             out.append({"docs": [canon.doc(n, d) for n, d in _collected],
                         "res": res,
                         "calls": [canon.call(c) for c in ledger[l0:]]})
+
+    try:
+        _await(RE, go())        # the whole case runs as one coroutine on the engine's loop
     finally:
         RE._run_bundlers.clear()
     return out
@@ -149,39 +153,39 @@ def _assets(lst):
     return [fd.asset_doc(a) for a in lst]
 
 
-def _do(RE, b, devs, op, Msg):
+async def _do(RE, b, devs, op, Msg):
     k = op[0]
     if k == "open_run":
-        _await(RE, b.open_run(Msg("open_run")))
+        await b.open_run(Msg("open_run"))
     elif k == "close_run":
         kw = {}
         if op[1] is not None:
             kw["exit_status"] = op[1]
         if op[2]:
             kw["reason"] = "r%d" % op[2]
-        _await(RE, b.close_run(Msg("close_run", **kw)))
+        await b.close_run(Msg("close_run", **kw))
     elif k == "create":
         kw = {} if op[1] is None else {"name": fd.stream_name(op[1])}
-        _await(RE, b.create(Msg("create", None, *[fd.stream_name(n) for n in op[2]], **kw)))
+        await b.create(Msg("create", None, *[fd.stream_name(n) for n in op[2]], **kw))
     elif k == "read":
         d = devs[op[1]]
         d.next_assets = _assets(op[3])
-        _await(RE, b.read(Msg("read", d), fd.reading_dict(op[2])))
+        await b.read(Msg("read", d), fd.reading_dict(op[2]))
     elif k == "save":
-        _await(RE, b.save(Msg("save")))
+        await b.save(Msg("save"))
     elif k == "drop":
-        _await(RE, b.drop(Msg("drop")))
+        await b.drop(Msg("drop"))
     elif k == "monitor":
         args = ("x",) if op[3] else ()
-        _await(RE, b.monitor(Msg("monitor", devs[op[1]], *args, name=fd.stream_name(op[2]))))
+        await b.monitor(Msg("monitor", devs[op[1]], *args, name=fd.stream_name(op[2])))
     elif k == "unmonitor":
-        _await(RE, b.unmonitor(Msg("unmonitor", devs[op[1]])))
+        await b.unmonitor(Msg("unmonitor", devs[op[1]]))
     elif k == "mon_event":
         d = devs[op[1]]
         if hasattr(d, "fire"):
             d.fire(fd.reading_dict(op[2]))
     elif k == "kickoff":
-        _await(RE, b.kickoff(Msg("kickoff", devs[op[1]])))
+        await b.kickoff(Msg("kickoff", devs[op[1]]))
     elif k == "collect":
         objs = []
         for o, idx, assets in op[1]:
@@ -194,16 +198,16 @@ def _do(RE, b, devs, op, Msg):
             kw["name"] = fd.stream_name(op[2])
         if op[3]:
             kw["stream"] = True
-        _await(RE, b.collect(Msg("collect", *objs, **kw)))
+        await b.collect(Msg("collect", *objs, **kw))
     elif k == "declare":
         kw = {"collect": bool(op[3])}
         if op[2] is not None:
             kw["name"] = fd.stream_name(op[2])
-        _await(RE, b.declare_stream(Msg("declare_stream", None, *[devs[o] for o in op[1]], **kw)))
+        await b.declare_stream(Msg("declare_stream", None, *[devs[o] for o in op[1]], **kw))
     elif k == "configure":
-        _await(RE, RE._configure(Msg("configure", devs[op[1]], op[2])))
+        await RE._configure(Msg("configure", devs[op[1]], op[2]))
     elif k == "checkpoint":
-        _await(RE, RE._checkpoint(Msg("checkpoint")))
+        await RE._checkpoint(Msg("checkpoint"))
     elif k == "interrupt":
         b.record_interruption("c%d" % op[1])
     elif k == "rewind":
@@ -211,16 +215,18 @@ def _do(RE, b, devs, op, Msg):
     elif k == "reset_checkpoint":
         b.reset_checkpoint_state()
     elif k == "clear_checkpoint":
-        _await(RE, b.clear_checkpoint(Msg("clear_checkpoint")))
+        await b.clear_checkpoint(Msg("clear_checkpoint"))
     elif k == "suspend_monitors":
-        _await(RE, b.suspend_monitors())
+        await b.suspend_monitors()
     elif k == "restore_monitors":
-        _await(RE, b.restore_monitors())
+        await b.restore_monitors()
     elif k == "clear_monitors":
         b.clear_monitors()
     elif k == "backstop":
+        for d in devs.values():
+            d.next_assets = []
         for o, assets in op[1]:
             devs[o].next_assets = _assets(assets)
-        _await(RE, b.backstop_collect())
+        await b.backstop_collect()
     else:
         raise ValueError("unknown op %r" % (op,))
